@@ -208,6 +208,7 @@ fn pt_config(cases: u32) -> Config {
         cases,
         failure_persistence: None,
         max_shrink_iters: 400,
+        max_shrink_time: 15_000,
         max_local_rejects: 1_000_000,
         max_global_rejects: 1_000_000,
         verbose: 0,
